@@ -41,7 +41,11 @@ pub fn after_call(
                 .u(requested as u64)
                 .u(stale as u64)
                 .u(cs.is_joint() as u64)
-                .u(pre.state as u64);
+                .u(pre.state as u64)
+                .u((i > pre.last_index) as u64)
+                .u((i >= pre.first_index) as u64)
+                .u((x.term > pre.term) as u64);
+            super::cluster_fp(nodes, &mut f);
             m.stats.hit("C15", f.get());
             if restored {
                 m.stats.inc("c15.installs");
@@ -161,6 +165,7 @@ pub fn after_call(
                 }
                 let mut f = Fp::new();
                 f.u(9).u(needed_gone as u64).u(asked as u64).u((si == post.committed) as u64);
+                super::cluster_fp(nodes, &mut f);
                 m.stats.hit("C15", f.get());
                 if !needed_gone && !asked {
                     m.violation(
